@@ -1,4 +1,5 @@
 import Ndt.Gen.Bicomplex
+import Ndt.Props.C12Pow
 import Mathlib.Tactic.Ring
 import Mathlib.Tactic.FieldSimp
 import Mathlib.Tactic.LinearCombination
